@@ -393,7 +393,7 @@ PROPS = {
                     'endpoint) and Recovery (a last segment extending a clean run delivers). Non-trivial = distinct faulted '
                     'operations (tree stage) / distinct episodes containing at least one fault (random stage).',
             'assumptions': COMMON_ASSUMPTIONS},
-    'C17': {'level': 'model_checking', 'stages': [DEC_APALACHE, DEC_ANY, DEC_ANY_WALKS, DEC_RANY], 'nontrivial_case': nt_dec_segmented, 'nontrivial_op': ntop_segment,
+    'C17': {'level': 'model_checking', 'stages': [DEC_APALACHE, DEC_ANY, DEC_ANY_WALKS, DEC_RANY, DEC_STREAMS], 'nontrivial_case': nt_dec_segmented, 'nontrivial_op': ntop_segment,
             'rule': 'MC_DecAny: every history up to MaxFrames buffers over an alphabet of well-formed, orphan, out-of-order, '
                     'changed-version/type, trailing-byte, multi-message, invalid, truncated, header-only, undersized and '
                     'TECMP-routed buffers on NEndpoints endpoints, counters crossing the wrap; tree replay on the real decoder; '
@@ -401,7 +401,7 @@ PROPS = {
                     'buffered bytes <= bytes of the run. Non-trivial = distinct decode operations feeding a segment (tree stage) / '
                     'distinct episodes feeding at least one segment (random stage).',
             'assumptions': COMMON_ASSUMPTIONS + ['needs the read-only hook Decoder::verifPending()']},
-    'C18': {'level': 'model_checking', 'stages': [DEC_ANY, DEC_ANY_WALKS, DEC_RANY], 'nontrivial_case': nt_dec_any, 'nontrivial_op': ntop_decode,
+    'C18': {'level': 'model_checking', 'stages': [DEC_ANY, DEC_ANY_WALKS, DEC_RANY, DEC_STREAMS], 'nontrivial_case': nt_dec_any, 'nontrivial_op': ntop_decode,
             'rule': 'as C17; the executor also runs one real solo decoder per endpoint on that endpoint\'s frames only; monitor: '
                     'packets returned by the shared decoder = packets of the solo decoder, every returned packet carries the '
                     'frame\'s endpoint, non-CMP buffers leave the pending table untouched. Non-trivial = distinct decode operations (tree stage) / '
